@@ -389,7 +389,7 @@ def judge(case, results):
                 if "out" in s and s["status"] != ["exit", 0]:
                     step_failed = True
             for a in n.get("anomalies", []):
-                if a["k"].startswith("hb."):
+                if a["k"] == "hb.unordered_access":
                     out.append({"class": a["k"], "detail": {"edge": a.get("edge"), "path": a.get("path"),
                                                             "owner": a.get("owner"), "rule": a.get("rule"), "label": r.get("label")}})
         if (fired or step_failed) and r["rc"] == 0:
